@@ -6,6 +6,7 @@ pub type StepSizeStrategy = Strategy;
 pub enum Either<L, R> { Left(L), Right(R) }
 
 //@include ../_shared/state_view.rs
+//@include ../_shared/std_extra.rs
 
 // ------------------------------------------------------------------------------------------
 // nuts-storable façade.  `#[derive(Storable)]` is dropped by rule R0 (the derive macro is NOT verified:
